@@ -7,9 +7,11 @@ Static clauses:
            no one-sided rename): decode . encode is then the identity on structure
   IDENT    Utxo's hand-written Hash and PartialEq read the same field set
   GATE     from_bytes decodes only versions >= MIN_SUPPORTED_VERSION and TirVersion::try_from has an error arm for unknown text
+  DEPTH    the recursion limit the CBOR reader is created with is a literal constant (not a function of the payload) small
+           enough for the stack: nesting bombs are rejected with an error instead of overflowing the stack
   PANIC    no undischarged panic site in the workspace closure of from_bytes / to_bytes / TirVersion::try_from
-Not decided: panics / aborts inside ciborium or serde on hostile bytes and stack depth on nesting bombs (dependency code,
-runtime quantity).
+Not decided: panics / aborts inside ciborium or serde on hostile bytes (dependency code); the stack actually needed per level
+of nesting (runtime quantity; DEPTH decides that the configured bound is a small constant).
 """
 import re
 
